@@ -231,6 +231,8 @@ def attr_model(it, o, name):
                 return SStr(z3.Function(f"str_{name}", z3.StringSort(), z3.StringSort())(t))
 
             return f
+        if name == "isascii":
+            return lambda: it.branch(z3.InRe(t, z3.Star(z3.Range(chr(0), chr(127)))))
         if name in ("rpartition", "partition", "split", "rsplit", "removesuffix", "removeprefix", "isidentifier", "isdecimal", "isdigit", "isalnum", "isalpha", "isascii", "splitlines", "find", "rfind", "index", "count", "title", "zfill", "ljust", "rjust"):
             def f(*a, **k):
                 v = split_str(it, o)
